@@ -57,11 +57,22 @@ def judge(ln):
                 if ll < 1.0 and dd * ll <= 1.05e-5:
                     return ('fail', 'on-edge-band-scales-with-edge-length', 'point %.3g from an edge of length %.3g is treated as on the outline (answer %s, exact %s)' % (dd, ll, got, want))
         if n2(dirv) != 0:
-            allp = list(outer) + [p for h in holes for p in h]
-            for v in allp:
-                w = sub(v, q)
-                c = cross(dirv, w)
-                if dot(w, dirv) > 0 and float(n2(c)) <= 1e-16 * float(n2(dirv)) * max(float(n2(w)), 1e-300):
-                    key = 'wrong-answer-ray-through-vertex'; break
+            def on_ray(v):
+                w = sub(v, q); c = cross(dirv, w)
+                return dot(w, dirv) > 0 and float(n2(c)) <= 1e-16 * float(n2(dirv)) * max(float(n2(w)), 1e-300)
+            def near_ray(v):
+                # ahead of the query and within twice the coincidence tolerance of the ray's supporting line, but not on it
+                w = sub(v, q); c = cross(dirv, w)
+                return dot(w, dirv) > 0 and not on_ray(v) and float(n2(c)) < 4e-10 * float(n2(dirv))
+            for grp in [outer] + holes:
+                m = len(grp)
+                for k in range(m):
+                    if on_ray(grp[k]):
+                        key = 'wrong-answer-ray-through-vertex'
+                        # the edge that leaves (or reaches) that vertex runs along the ray within the coincidence tolerance: its
+                        # other end is neither on the ray nor clear of it
+                        if near_ray(grp[(k + 1) % m]) or near_ray(grp[(k - 1) % m]):
+                            return ('fail', 'wrong-answer-ray-through-vertex:edge-along-ray-within-tolerance',
+                                    'test_point = %s but the exact winding number says %s (ray through a vertex whose neighbour is within 2e-5 of the ray)' % (got, want))
         return ('fail', key, 'test_point = %s but the exact winding number says %s' % (got, want))
     return ('ok', '')
